@@ -7,6 +7,12 @@ BASELINE_OFF = "for m in $(cat /w/out/gomods.txt); do MF=$(cd /repo/$m && . /w/o
 
 # id -> (level text, level_note, technique)
 CLAIMED = {
+ "C13": ("structural analysis of the MultiEndpoint 'current' variable: allowed writers, every stored value is the id (or successful lookup key) of an endpoint read from the table in the same write-locked critical section (through parameters at every call site), ids equal table keys, every mutator re-evaluates current after its last table/status/priority write on every path, fallback-to-first and switch decisions and both argmin loops as exact truth tables, gone current always re-assigned, empty lists rejected before any effect, every listed endpoint inserted (table never empty), constructor timers cannot observe a half-built table; plus lock discipline of the package",
+         "'current is the highest-priority available endpoint after every operation' over all histories and timer orders needs state exploration; decided are the per-critical-section necessary conditions",
+         "static analysis: reaching-condition truth tables + provenance + must-pass-through + lock-state facts on go/ssa"),
+ "C14": ("structural analysis of the timer-driven transitions: status only via setState (stop timer, store, stamp on every path), timer callbacks lock first and the recovery callback re-validates its captured stamp, recovery timers only from the available→recovering transition (no extension by repeated reports), availability reports always reach setState(available), immediate vs delayed switch as exact truth tables, and every current-store justified inside its own critical section",
+         "window lengths, order of simultaneously due timers and convergence at quiescence (liveness) are not decided",
+         "static analysis: reaching-condition truth tables + typestate of timer closures + provenance on go/ssa"),
  "C07": ("structural analysis of the refresh rule: refresh() reachable only from the detector under exactly the nine-conjunct rule (truth-table equivalence), responses are the exact complement, exactly one count per qualifying completion, gotResp's effect set, 64-bit guarded window arithmetic, typestate of the refreshing flag (test-and-set in the critical section, one creation, every path registers or resets), refresh() leaves the serving connection untouched, the swap performs the complete take-over once",
          "the timed meaning of the conjuncts (clock values, >= vs > at thresholds) is not decided; saturation of the 64-bit window is checked structurally (guarded doubling), not numerically",
          "static analysis: reaching-condition truth-table equivalence (9 atoms) + typestate/must-pass-through + effect summaries on go/ssa"),
